@@ -1,5 +1,5 @@
-INIT Init
-NEXT Next
+SPECIFICATION FairSpec
+PROPERTY EventuallyDone
 CHECK_DEADLOCK FALSE
 INVARIANT GuessInBasin
 INVARIANT Quadratic
